@@ -5,8 +5,9 @@ GROUPS = ['common']
 CXX_SOURCES = []
 
 RULE = ('operation histories on 1-3 IOQueues and 0-2 IOStacks sharing one MemoryBlockPool with block size 1-8: '
-        'exhaustive short histories over a boundary alphabet (lengths 0,1,bs-1,bs,bs+1,2bs,3bs+1) + random '
-        'histories of up to 40 ops whose lengths are aimed at block size and current buffer size +-1 + '
+        'all histories of <= 3 ops over a 34-letter boundary alphabet (write / read lengths 0,1,bs,bs+1; quick bs=2, '
+        'thorough bs=1..3 plus a 1/11 sample of depth 4) + random histories of up to 40 ops whose lengths are drawn from '
+        '{0,1,bs-1,bs,bs+1,2bs,2bs+1,3bs+1} for writes and block size / current buffer size -1,+0,+1 for reads and pops + '
         'scenario families for block reuse / string reads / zero-length writes / stack-to-queue moves; '
         'every observable compared after every op; non-trivial = at least one byte written and one '
         'byte read/peeked back; distinct = distinct model output line')
@@ -20,6 +21,23 @@ TRUSTED = ['modelled rather than verified: MemoryBlock.h (all methods), MemoryBl
            'AppendMove, Clear, Size, Empty), IOStack.cpp (Write, Read x2, Pop, AsIOVec, MoveToIOQueue, Size, '
            'Empty, destructor), BigEndianOutputStream operator<< for 8/16/32-bit values; blocks are held by '
            'value in the model (pointer aliasing / double ownership is left to ASan on the harness side)']
+
+LEVEL_TEXT = ('Coq theorems over an executable, block-level model of MemoryBlock / MemoryBlockPool / IOQueue / IOStack '
+              '(first/last offsets, byte arrays, deques of blocks, free list): for every block size >= 1, any number '
+              'of queues and stacks on one pool and EVERY operation history, no out-of-block copy / empty-deque access / '
+              'non-terminating write loop occurs and the model is simulated step by step by a byte-list specification '
+              '(queue = FIFO append, stack = prepend, reads and pops take a prefix exactly once, moves concatenate), '
+              'with Size = written - consumed, allocated = free + held, no empty block ever held, free blocks reset, '
+              'and concat(AsIOVec) = content.  The theorems hold for the code WITH fixes 01-03 of props/C15/fixes '
+              '(string reads consume, Release resets, zero-length writes allocate nothing); the model is tied to the '
+              'C++ by a differential correspondence check comparing every observable after every operation.')
+LEVEL_NOTE = ('Trusted: Coq kernel, extraction (ExtrOcamlBasic), OCaml/C++ glue, generator coverage of the '
+              'correspondence; model = code is validated by differential testing (ASan/UBSan build of the working tree), '
+              'not proved.  Lengths and counters are unbounded naturals in the model (no 2^32 wrap of unsigned int); '
+              'blocks are held by value, so pointer aliasing between deques is left to ASan; operator new never fails; '
+              'all buffers in one history share one pool and AppendMove is never given the queue itself.')
+TECHNIQUE = 'Coq refinement proof (block-level model vs byte-list spec, induction over histories) + extracted-model/implementation differential correspondence'
+DESIGN_REF = 'DESIGN.md §4 C15'
 
 # property-level observables are the o<k> keys (returned bytes, Size, Empty, concatenated iovec,
 # allocated == free + held, no empty block held); i<k> keys are block layout / pool counters.
